@@ -194,6 +194,22 @@ def h_func(E, shape):
             ref[n + i][b] = -(1.0 if scaled else dt) * J[i][b]
         ref[n + i][n + i] = lam if scaled else 1.0
     eqm(E, D, ref, "C13.generalised_jacobian")
+    # the evaluation is repeatable: a second active set on the same iterate gives its own definition,
+    # and the iterate's cached derivatives still equal theirs
+    mask2 = [E.bool(f"act2_{j}") for j in range(n)]
+    D2 = func.deriv_at(it, rho, np.array(mask2, dtype=bool))
+    ref2 = [row[:] for row in ref]
+    for a in range(n):
+        for b in range(n):
+            base = (lam if scaled else 1.0) if a == b else 0.0
+            ref2[a][b] = base + ite(mask2[a], 0.0, (1.0 if scaled else dt) * Lxx[a][b])
+        for i in range(m):
+            ref2[a][n + i] = ite(mask2[a], 0.0, (1.0 if scaled else dt) * J[i][a])
+    eqm(E, D2, ref2, "C13.generalised_jacobian_second_active_set")
+    if m:
+        eqm(E, it.aug_lag_deriv_xy(), J, "C13.derivatives_unchanged_by_evaluation")
+    eqm(E, it.aug_lag_deriv_xx(rho), Lxx, "C13.derivatives_unchanged_by_evaluation")
+    eqv(E, it.aug_lag_deriv_x(rho), R["dLx"], "C13.derivatives_unchanged_by_evaluation")
 
 
 def h_keep_rows(E, shape):
